@@ -138,7 +138,30 @@ let cmd_gen args =
      | Base.Ok vals -> "ok " ^ show_subsets vals)
   | _ -> failwith "gen"
 
+(* encg <values> <template> : the ghost encoder (RoundTrip.encode_ghost):
+   bits, descriptors/links, and the values a reader obtains *)
+let cmd_encg args =
+  match args with
+  | vals :: tmpl ->
+    let (t, _) = parse_template tmpl in
+    (match RoundTrip.encode_ghost t (parse_subsets vals) with
+     | Base.Err e -> err_string e
+     | Base.Ok ((outs, w), g) -> "ok " ^ hexn_of_bits w ^ " " ^ show_outs outs ^ " " ^ show_subsets g)
+  | _ -> failwith "encg"
+
+(* canon <values> <template> : Spec.canonical_bits *)
+let cmd_canon args =
+  match args with
+  | vals :: tmpl ->
+    let (t, _) = parse_template tmpl in
+    (match Spec.canonical_bits t (parse_subsets vals) with
+     | Base.Err e -> err_string e
+     | Base.Ok w -> "ok " ^ hexn_of_bits w)
+  | _ -> failwith "canon"
+
 let () =
+  register "encg" cmd_encg;
+  register "canon" cmd_canon;
   register "decu" cmd_decu;
   register "encu" cmd_encu;
   register "gen" cmd_gen
